@@ -25,7 +25,11 @@
   * `conc_quiescent_counters_exact` — at the quiescent end of every interleaving of threads using
     the lower allocator every huge-entry counter is exact again.
 
-  PARTIAL: `validate()`, `stats_at(order 0)` / `is_free` and the tree counters at the end of
+  * `validate_passes` — all assertions of `validate()` hold in every invariant state without
+    offline trees (`Proofs/Validate.lean`: as many reserved trees as reservations — a counting
+    argument —, reservation + tree counter = free frames of the tree, unreserved counters exact).
+
+  PARTIAL: `stats_at(order 0)` / `is_free` and the tree counters at the end of
   concurrent interleavings are carried by the correspondence (statistics, `stats_at`, `is_free`,
   `tree_stats` and `validate()` compared with the ownership model after every call of every
   sequential history and at the quiescent end of every explored interleaving).
@@ -34,6 +38,7 @@ import LLFreeV.Proofs.UpperInit
 import LLFreeV.Proofs.OwnLowerThreads
 import LLFreeV.Proofs.TreeStats
 import LLFreeV.Proofs.FastTotal
+import LLFreeV.Proofs.Validate
 namespace LLFree.C04
 open LLFree Prog
 
@@ -143,6 +148,13 @@ theorem tree_stats_total (c : Cfg) (H : Nat → Nat) (ok : CfgOk c) (m : Mem) (i
 theorem fast_total_exact (c : Cfg) (H : Nat → Nat) (ok : CfgOk c) (m : Mem) (inv : UpperInv0 c H m) :
     Runs m (treeStats c) (fun s m' => m = m' ∧ s.freeFrames + blockSum H c.ntrees = m.freeTotal c.geom c.ntrees) :=
   LLFree.fast_total_exact c m ok inv
+
+/-- **`validate()` passes** in every invariant state without offline trees: fast total = exact
+    total, per-tree counters exact, reservations consistent with their (reserved) trees, and as
+    many reserved trees as reservations — the program runs to the end without panic, reading only. -/
+theorem validate_passes (c : Cfg) (ok : CfgOk c) (m : Mem) (inv : UpperInv0 c (fun _ => 0) m) :
+    Runs m (validate c) (fun _ m' => m = m') :=
+  validate_spec c m ok inv
 
 /-- **Quiescent end of every interleaving (lower level)**: when all threads have finished their
     calls, every huge-entry counter is exactly the number of free frames of its bitfield. -/
